@@ -119,6 +119,19 @@ def _tjob(chunk):
                     got = '%s: %s' % (type(e).__name__, e)
                 if got != ref:
                     bad.append((w, text, lay, i, got[:160]))
+            # layout between a dot and a reserved word used as a property name, before a following slash
+            dots = [j for j in range(1, i) if w[j - 1] == 'PERIOD' and w[j] not in ('ID',)]
+            if rspell is None and dots:
+                jn = dots[-1]
+                for lay in ('\n', '/*c*/', ' //c\n'):
+                    text = ' '.join(toks[:jn]) + lay + ' '.join(toks[jn:])
+                    n += 1
+                    try:
+                        got = text_tree(text)
+                    except Exception as e:
+                        got = '%s: %s' % (type(e).__name__, e)
+                    if got != ref:
+                        bad.append((w, text, 'DOT' + lay, i, got[:160]))
             # layout between a statement keyword and the ( of its header, for a regex that follows the header
             if rspell is None and w[i] == 'REGEX' and i > 0 and w[i - 1] == 'RPAREN':
                 depth, j = 0, i - 1
@@ -147,6 +160,8 @@ KNOWN_HEADER_KW = 'C05: layout between an if/for/while/with keyword and the ( of
 
 
 def classify(w, i, lay, text):
+    if lay.startswith('DOT'):
+        return 'C05 T: layout between a dot and a reserved word used as a property name changes the reading of the following `/`'
     if lay.startswith('KW'):
         return KNOWN_HEADER_KW if lay[2:].strip(' \t\xa0') != '' else 'C05 T: white space between a statement keyword and ( changes the reading of a later `/`'
     if i > 0 and w[i - 1] == 'RPAREN' and lay.strip(' \t') != '' and w[i] == 'REGEX':
@@ -261,6 +276,19 @@ def main():
     structs = structures(Tb, G, sp, th)
     if not th:
         structs = structs[::5]
+    # a regex literal as the body of every kind of header statement (always included)
+    for w in (('IF', 'LPAREN', 'ID', 'RPAREN', 'REGEX', 'PERIOD', 'ID', 'SEMI'), ('WHILE', 'LPAREN', 'ID', 'RPAREN', 'REGEX', 'PERIOD', 'ID', 'SEMI'),
+              ('WITH', 'LPAREN', 'ID', 'RPAREN', 'REGEX', 'PERIOD', 'ID', 'SEMI'), ('FOR', 'LPAREN', 'SEMI', 'SEMI', 'RPAREN', 'REGEX', 'PERIOD', 'ID', 'SEMI'),
+              ('FOR', 'LPAREN', 'ID', 'IN', 'ID', 'RPAREN', 'REGEX', 'PERIOD', 'ID', 'SEMI'), ('IF', 'LPAREN', 'ID', 'RPAREN', 'WITH', 'LPAREN', 'ID', 'RPAREN', 'REGEX', 'SEMI'),
+              ('IF', 'LPAREN', 'ID', 'LPAREN', 'ID', 'RPAREN', 'RPAREN', 'REGEX', 'PERIOD', 'ID', 'SEMI'), ('WHILE', 'LPAREN', 'LPAREN', 'ID', 'RPAREN', 'DIV', 'NUMBER', 'RPAREN', 'SEMI')):
+        if gx.lr_run(Tb, list(w)) is not None and w not in structs:
+            structs.append(w)
+    # reserved words used as property names before a slash (always included)
+    for kw in ('RETURN', 'IF', 'TYPEOF', 'IN', 'WHILE', 'THIS', 'NEW'):
+        for w in (('ID', 'EQ', 'ID', 'PERIOD', kw, 'DIV', 'NUMBER', 'DIV', 'ID', 'SEMI'),
+                  ('ID', 'EQ', 'ID', 'PERIOD', kw, 'LPAREN', 'ID', 'RPAREN', 'DIV', 'NUMBER', 'DIV', 'ID', 'SEMI')):
+            if gx.lr_run(Tb, list(w)) is not None and w not in structs:
+                structs.append(w)
     _TL['sp'] = sp
     chunks = [structs[i::64] for i in range(64)]
     tres = common.pmap(_tjob, chunks)
